@@ -103,6 +103,15 @@ theorem goInChroot_unshares_fs_and_mounts :
 theorem jail_body_single_threaded :
     Facts.jailBodyRootsFound = true ∧ Facts.jailBodyGoStmts = [] := by decide
 
+/-- how `SwitchRoot` makes the new root a jail (regenerated from `internal/mounttree` on every run): exactly one
+    `pivot_root`, of the root and a directory inside it; the old root is remounted private *recursively*
+    before it is detached, so the detach does not propagate to the mounts of the host; pivot, then chdir,
+    then private -/
+theorem switchRoot_structure :
+    Facts.switchRootPivots = ["path, pivotDir"] ∧ Facts.switchRootPrivateRec = true ∧
+    Facts.switchRootOrder.filter (fun x => x = "pivot" ∨ x = "chdir" ∨ x = "private") = ["pivot", "chdir", "private"] := by
+  decide
+
 /-- non-vacuity: a world where `/w/root` exists and resolves -/
 example : ∃ w : World, NextFresh w.fs ∧ resolve w b!"/w" true = .ok [b!"w"] := by
   refine ⟨{ fs := FS.empty.create [b!"w"] { kind := .dir, perm := 0o755, uid := 0, gid := 0, mtime := some 0 } }, ?_, ?_⟩
